@@ -8,7 +8,7 @@ CONSTANTS
   Opts <- AllOpts
   MaxSet = 2
   Variant = "as_shipped"
-  Fixed = {}
+  Fixed = {"D1", "D4"}
   Targets = {0, 1, 2}
   Combine = "typical"
 INVARIANT Emit
